@@ -196,7 +196,14 @@ def run(R):
             tr.run()
             rt = set(RetSink("true").blocks(c))
             direct = any(blk["term"]["k"] == "call" and callee_matches(blk["term"], [AB + "BootstrapAddr::is_reliable"]) for blk in c.blocks)
-            okr = pol and direct
+            # the age compared is the element's own: duration_since is handed a `last_seen` read from the address under test in this very
+            # closure — not a value computed outside (the newest last_seen of the peer's addresses keeps every stale address of a live peer)
+            own = Taint(c, through="all").closure({d for d, r, p in field_reads(c, "last_seen")})
+            ds = [blk for blk in c.blocks if blk["term"]["k"] == "call" and not blk["cleanup"] and callee_matches(blk["term"], ["std::time::SystemTime::duration_since", "std::time::SystemTime::elapsed"])]
+            own_age = bool(ds) and all(any(op_local(a) in own for a in blk["term"]["args"]) for blk in ds)
+            if not own_age:
+                R.viol("C18.cleanup.retain", "age-of-another", "clean-up does not measure an address's age from that address's own last_seen", c, c.lines[0])
+            okr = pol and direct and own_age
             # `a && b` lowers to: switch a → [false → _0 = false] [true → _0 = b]; accept: _0 is never `true` on the rejecting side
             if tr.reject:
                 okr = okr and all(not (g.reach((d,)) & rt) for _, d in tr.reject)
@@ -218,7 +225,7 @@ def run(R):
                     if v != (e.get("R", False) and e.get("D", False) and e.get("L", False)):
                         okr = False
                 okr = okr and set(atoms) == {"R", "D", "L"}
-        if not okr:
+        if not okr and not any(v.rule == "C18.cleanup.retain" for v in R.violations):
             R.viol("C18.cleanup.retain", "retain-predicate", "clean-up does not keep exactly the addresses that are reliable and seen within addr_expiry_duration", pc, pc.lines[0])
         R.inst("C18.cleanup.retain", "K10 polarity", "addresses kept iff is_reliable() && now - last_seen < addr_expiry_duration", len(rel), okr)
         calls = {c["ncallee"] for b in F.item(CD + "::perform_cleanup") for c in b.calls}
